@@ -92,12 +92,21 @@ def run_check(prop, tier):
         # ---- stage M
         invs = ["P_C12_NoPanic", "P_C12_Prefix"] if prop == "C12" else ["P_C13_QuietLocalClose", "P_C13_Reported", "P_C13_NoLateDelivery"]
         live = ["L_C12_Returns"] if prop == "C12" else ["L_C13_Released", "P_C13_ReadAfterCloseDropped"]
+        # liveness (and the invariants) on two writers; thorough: the invariants also on three writers and two inbound frames
+        # (18.7 M distinct states - liveness checking on that graph takes hours, the safety part 20 - 40 minutes)
         with open(os.path.join(sd, "WsConn_M.cfg"), "w") as f:
-            f.write("SPECIFICATION Spec\nCONSTANTS Writers = {1, 2%s}\n MsgsPerWriter = 2\n Defects = %s\n InitFrames <- %s\n"
+            f.write("SPECIFICATION Spec\nCONSTANTS Writers = {1, 2}\n MsgsPerWriter = 2\n Defects = %s\n InitFrames <- OneFrame\n"
                     " MaxFaults = 1\n AllowBlock = TRUE\n%s%sCHECK_DEADLOCK FALSE\n"
-                    % ("" if q else ", 3", tlaset(DEFECTS), "OneFrame" if q else "TwoFrames",
-                       "".join("INVARIANT %s\n" % i for i in invs), "".join("PROPERTY %s\n" % p for p in live)))
+                    % (tlaset(DEFECTS), "".join("INVARIANT %s\n" % i for i in invs), "".join("PROPERTY %s\n" % p for p in live)))
         m = vlib.tlc(sd, "WsConn", cfg="WsConn_M.cfg", workers=8, timeout=2400)
+        if not q and not m["violated"] and not m["error"]:
+            acts = [p for p in live if p.startswith("P_")]       # action properties cost nothing
+            with open(os.path.join(sd, "WsConn_M3.cfg"), "w") as f:
+                f.write("SPECIFICATION Spec\nCONSTANTS Writers = {1, 2, 3}\n MsgsPerWriter = 2\n Defects = %s\n InitFrames <- TwoFrames\n"
+                        " MaxFaults = 1\n AllowBlock = TRUE\n%s%sCHECK_DEADLOCK FALSE\n"
+                        % (tlaset(DEFECTS), "".join("INVARIANT %s\n" % i for i in invs), "".join("PROPERTY %s\n" % p for p in acts)))
+            m3 = vlib.tlc(sd, "WsConn", cfg="WsConn_M3.cfg", workers=12, timeout=10000)
+            m = dict(m3, states=m["states"] + m3["states"], distinct=m["distinct"] + m3["distinct"], seconds=m["seconds"] + m3["seconds"])
         if m["error"] and not m["violated"]:
             raise vlib.Infra("TLC error in WsConn: %s\n%s" % (m["error"], m["tail"]))
         if os.environ.get("VERIF_SKIP_M"):
